@@ -2864,7 +2864,7 @@ func (dsc *dataStoreCommand) intersectWithLimitWorker(limit int, keyNames ...str
 	}
 
 	d = newRedisDict()
-	if missing || len(sets) < 2 {
+	if missing || len(sets) == 0 {
 		return
 	}
 
